@@ -73,7 +73,7 @@ func runC19(rc *RunCtx, i int) {
 	// every eighth case: zstd blocks of very repetitive rows, which decode to far more than 32x
 	// their stored size: the only blocks for which a reader may have to go beyond any bound it
 	// derives from the bytes present, i.e. where a lying UncompressedSize has the most room
-	compressibleBig := i%8 == 5
+	compressibleBig := i%8 == 6
 	if compressibleBig {
 		spec.Compression, spec.ZstdLevel = "zstd", 1
 		rc.Res.Count("cases_with_highly_compressible_blocks", 1)
